@@ -470,6 +470,15 @@ func (s *safety) dischargePanicSite(p *Path, ix *pathIndex, e *Event, conds []Co
 		return false, fmt.Sprintf("index %s not provably within [0, %s)", i.Pretty(), ln.Pretty())
 	case "slice":
 		x, lo, hi := stripCT(e.Args[0]), e.Args[1], e.Args[2]
+		if x.Op == "slice" {
+			// a slice of a slice of Bytes(): judged in the coordinates of Bytes()
+			if fl := flattenSlice(&Val{Op: "slice", Args: []*Val{x, lo, hi, nil}}); stripCT(fl.Args[0]).Op == "bufbytes" {
+				inner := stripCT(e.Args[0])
+				if inner.Args[2] == nil || hi != nil {
+					x, lo, hi = stripCT(fl.Args[0]), fl.Args[1], fl.Args[2]
+				}
+			}
+		}
 		if x.Op == "bufbytes" {
 			bb := ix.byID[x.ID]
 			// both bounds are boundaries of atoms appended (to this same buffer, with nothing consumed in between) before
@@ -513,6 +522,7 @@ func (s *safety) dischargePanicSite(p *Path, ix *pathIndex, e *Event, conds []Co
 		if w, ok := affOf(mkLen(sl)).IsConst(); ok && w >= need {
 			return true, "slice has the required constant length"
 		}
+		sl = flattenSlice(sl)
 		if sl.Op == "slice" && stripCT(sl.Args[0]).Op == "bufbytes" && sl.Args[1] != nil {
 			if bb := ix.byID[stripCT(sl.Args[0]).ID]; bb != nil {
 				if _, _, w, m, okw := ix.window(sl.Args[1], sl.Args[2], bb); okw && w >= need && sameBuf(m.Buf, bb.Buf) {
